@@ -73,5 +73,18 @@ PROPS = {
                         "the two-line runtime dispatchers json::simd::build_semi_index_{standard,simple} (cpuid) are not executed by Kani",
                         "outer chunk loops of the SIMD builders and the PFSM/scalar byte loops: bounded evidence only (see coverage.bounded)"],
     },
+    "C07": {
+        "level": "proof",
+        "explanation": "Verus proves on the extracted text of the real functions: build_ib_rank (rank[i] == ones before word i), ib_rank1 "
+                       "(== bit-level rank for every pos, also past the end), ib_select1 and ib_select1_from (both == the bit-level select "
+                       "definition for EVERY k: usize and EVERY hint: usize, so the answer cannot depend on the hint; both galloping loops and "
+                       "the binary searches terminate), JsonCursor::text_position (== select of the BP rank) and cursor_at_offset (the BP open "
+                       "whose ordinal is the number of interest bits at positions <= offset, minus one; None iff none). cursor_at_position is "
+                       "to_offset (C12 contract) followed by cursor_at_offset.",
+        "trusted_base": COMMON_TRUST + ["Verus 0.2026.09.13 + Z3; vstd specs of Vec/slice/Option",
+                                        "seam R4: BalancedParens::rank1 contract (C04), select_in_word contract (Kani, C02)"],
+        "assumptions": ["index invariant of callers (ib_rank built by build_ib_rank over the same words; bits past ib_len clear; < 2^32 interest bits; ib_len <= text.len())",
+                        "JsonIndex<W> verified for W = Vec<u64> (the borrowed-storage instantiation runs the same text)"],
+    },
 }
 FIX_COMMITS = ["2cec8d3"]
